@@ -13,6 +13,7 @@ mod peers;
 mod reqgen;
 mod props;
 mod runner;
+mod urlref;
 
 use runner::{PropertySpec, Verdict};
 
@@ -69,6 +70,17 @@ static SPECS: &[PropertySpec] = &[
         real_components: REAL,
         stubbed_components: STUB,
         assumptions: &["callers never set Host/Connection/Content-Length/Transfer-Encoding/Accept-Encoding themselves", "bearer tokens contain no control characters", "part order of multipart bodies is not demanded"],
+    },
+    PropertySpec {
+        id: "C09",
+        scenario: props::c09::scenario,
+        level: "exploration",
+        rule: "redirect graphs over 3 hosts x 2 ports: chains of length 0..max+2 and cycles over followed statuses 301/302/303/307/308 with Location forms absolute, scheme-relative, absolute-path, relative-path with dot segments, query-only, with fragment, fragment-only, empty, upper-case scheme/host; terminals 2xx/4xx/5xx, unfollowed 3xx (300/304/305/306/399), missing / unparsable / non-http Location; max_redirections 0..6 or default; follow on/off; the recorded connection history is compared with a reference interpreter whose hop URLs come from an independent RFC 3986 section 5.2 resolver; distinct = (form list, statuses, max, follow); non-trivial = at least one hop",
+        quick_runs: 6000,
+        thorough_runs: 300_000,
+        real_components: REAL,
+        stubbed_components: STUB,
+        assumptions: &["URLs compared modulo fragment", "generator stays inside the subset where WHATWG URL and RFC 3986 agree", "when the redirect budget is exhausted on a redirect that also has an unusable Location either error is accepted"],
     },
     PropertySpec {
         id: "C13",
